@@ -15,6 +15,7 @@ import Gts.Bridge.SeqComplement
 import Gts.Lemmas.ReverseInvol
 import Gts.Lemmas.MarksDelAll
 import Gts.Lemmas.ReverseStable
+import Gts.Bridge.CmdReverse
 namespace Gts.C05
 open Gts Loc
 
@@ -710,5 +711,47 @@ theorem gen_transcribe_spec {ι : Type} (info : ι) (s : Seq) :
 -- non-vacuity: the theorems have no hypotheses; a concrete record
 example : Gen.seqComplement (ι := Unit) () [⟨"gene", .point 1, []⟩] [65, 67] =
     .ok ((), [⟨"gene", .compl (.point 1), []⟩], [84, 71]) := gen_complement_spec () ⟨[⟨"gene", .point 1, []⟩], [65, 67]⟩
+
+/-! ### the CLI glue: `gts reverse`, `gts complement`
+
+What the COMMANDS apply to every record: `Gts.Gen.reverseStep` / `complementStep` are the scan-loop bodies of
+cmd/gts/reverse.go / complement.go, regenerated on every run (go2lean/cmdsteps.go); `Gts/Bridge/CmdReverse.lean` proves
+them equal to `Seq.reverse` / `Seq.complement`. -/
+
+/-- **`gts reverse`, the command as written**: one record is written per record read — residues flipped, no feature
+lost or duplicated, each re-located by `Reverse(len)`; nothing is complemented -/
+theorem reverse_cli_step (s : Seq) :
+    ∃ r, Gen.reverseStep s = some [r] ∧ r.bytes = s.bytes.reverse ∧
+      r.feats.Perm (s.feats.map fun f => { f with loc := f.loc.reverse s.len }) :=
+  ⟨s.reverse, Bridge.reverseStep_eq s, rfl, reverse_table_perm s⟩
+
+/-- **`gts complement`, the command as written**: one record per record — every residue through the complement
+alphabet, EVERY feature location through `Location.Complement`, table order kept; nothing is reversed -/
+theorem complement_cli_step (s : Seq) :
+    Gen.complementStep s = some [⟨s.feats.map fun f => { f with loc := f.loc.complement },
+      s.bytes.map Nuc.complementByte⟩] :=
+  Bridge.complementStep_eq s
+
+/-- **`gts complement | gts reverse`** is the reverse complement of the record — the record `seq_revcomp`,
+`seq_revcomp_den_partial`, `seq_revcomp_extract_all_partial` above are about -/
+theorem complement_then_reverse_cli_steps (s : Seq) :
+    ∃ c r, Gen.complementStep s = some [c] ∧ Gen.reverseStep c = some [r] ∧ s.revcompRec = some r := by
+  refine ⟨_, _, complement_cli_step s, Bridge.reverseStep_eq _, ?_⟩
+  simp [Seq.revcompRec, seq_complement_total, Cli.reverseStep]
+
+/-- **`gts reverse | gts reverse`**: the two runs give `Seq.reverse (Seq.reverse s)` — the residues come back, the
+table is the one the `seq_reverse_reverse_*` theorems above are about -/
+theorem reverse_reverse_cli_steps (s : Seq) :
+    ∃ r, Gen.reverseStep s = some [r] ∧ Gen.reverseStep r = some [s.reverse.reverse] ∧
+      s.reverse.reverse.bytes = s.bytes :=
+  ⟨s.reverse, Bridge.reverseStep_eq s, Bridge.reverseStep_eq _, seq_reverse_reverse_bytes s⟩
+
+-- non-vacuity: the theorems have no hypotheses; a concrete record
+example : Gen.complementStep ⟨[⟨"gene", .point 1, []⟩], [65, 67]⟩ =
+    some [⟨[⟨"gene", .compl (.point 1), []⟩], [84, 71]⟩] := complement_cli_step ⟨[⟨"gene", .point 1, []⟩], [65, 67]⟩
+
+example : ∃ r, Gen.reverseStep ⟨[⟨"gene", .ranged 0 2 false false, []⟩], [65, 67, 71]⟩ = some [r] ∧
+    r.bytes = [71, 67, 65] ∧ r.feats.Perm [⟨"gene", .ranged 1 3 false false, []⟩] :=
+  reverse_cli_step ⟨[⟨"gene", .ranged 0 2 false false, []⟩], [65, 67, 71]⟩
 
 end Gts.C05
